@@ -101,9 +101,31 @@ impl Runner for BashRunner {
 
         // render the bash script
         let state_directory_str = self.state_directory.to_string_lossy();
+        // environment variables of the testcase are exported again after the
+        // state of previous executions has been loaded
+        let environment = testcase
+            .config
+            .environment
+            .iter()
+            .filter(|(name, _)| {
+                !name.is_empty()
+                    && !name.starts_with(|ch: char| ch.is_ascii_digit())
+                    && name.chars().all(|ch| ch.is_ascii_alphanumeric() || ch == '_')
+            })
+            .map(|(name, value)| {
+                format!(
+                    "export {}={}",
+                    name,
+                    shell_escape::unix::escape(std::borrow::Cow::from(value.as_str()))
+                )
+            })
+            .collect::<Vec<_>>()
+            .join("\n");
+
         // the shell expression goes in last, so that nothing inside it is replaced
         let expression = BASH_TEMPLATE
             .replace("{state_directory}", &state_directory_str)
+            .replace("{environment}", &environment)
             .replace("{name}", name)
             .replace("{excluded_variables}", &BASH_EXCLUDED_VARIABLES.join("|"))
             .replace(
